@@ -2,7 +2,7 @@
    The regular-expression driven tokeniser (front end) is NOT modelled: structures are taken from
    the implementation through the hook. *)
 From Coq Require Import List ZArith NArith Bool.
-From Scalibr Require Import Semantic.Cmp Semantic.LexPad Semantic.Bytes.
+From Scalibr Require Import Semantic.Cmp Semantic.LexPad Semantic.Bytes Semantic.Generated_Tables.
 Import ListNotations.
 Open Scope N_scope.
 
@@ -53,7 +53,12 @@ Definition asuffix_cmp (a b : asuffix) : outcome comparison :=
   | Eq => ocmp (as_number a) (as_number b)
   | c => Ok c
   end.
-Definition asuffix_pad : asuffix := {| as_weight := 4%Z; as_number := Some 0%Z |}.
+Definition asuffix_pad : asuffix := {| as_weight := gen_alpine_suffix_pad_weight; as_number := Some 0%Z |}.
+
+(* weightAlpineSuffixString: the position in the generated table *)
+Fixpoint index_of (k : bytes) (l : list bytes) (i : nat) : nat :=
+  match l with [] => i | x :: r => if bytes_eqb x k then i else index_of k r (S i) end.
+Definition suffix_weight (name : bytes) : Z := Z.of_nat (index_of name gen_alpine_suffix_order 0).
 
 Definition al_suffixes_cmp (v w : alpine) : outcome comparison :=
   lexpadO asuffix_pad asuffix_cmp (al_suffixes v) (al_suffixes w).
